@@ -41,6 +41,15 @@ def shellClassify (tokens : List String) : Classification :=
     | some (inner :: _) =>
       if inner.isEmpty then ask (base ++ " -c (no command)") else delegate inner
 
+/-- a cluster of short options (`-vu`, `-rn1`): the first letter that takes a value (`"-" + letter` is in the
+    handler's table) and what is attached to it in the same word -/
+def clusterFind (fwa : List String) : List Char → Option (Char × List Char)
+  | [] => none
+  | c :: r => if fwa.contains ("-" ++ String.singleton c) then some (c, r) else clusterFind fwa r
+
+/-- is the word a single-dash option word (`-x…`, also `-` alone) -/
+def isShort (t : String) : Bool := sw t "-" && !sw t "--"
+
 /-! ### env -/
 
 def envInner (rest : List String) : Classification :=
@@ -55,10 +64,16 @@ def envLoop : Bool → List String → Classification
   | true, _ :: rest => envLoop false rest
   | false, t :: rest =>
     if t == "--" then envInner rest
-    else if t == "-S" || t == "--split-string" then envSplit (rest.headD "") (rest.drop 1)
+    else if t == "--split-string" then envSplit (rest.headD "") (rest.drop 1)
     else if sw t "--split-string=" then envSplit (dropS 15 t) rest
-    else if sw t "-S" && t.length > 2 then envSplit (dropS 2 t) rest
-    else if env_FLAGS_WITH_ARG.contains t then envLoop true rest
+    else match (if isShort t then clusterFind env_FLAGS_WITH_ARG (t.toList.drop 1) else none) with
+    | some (c, attached) =>
+      -- combined short options: the first value-taking one ends the cluster
+      if c == 'S' then
+        (if attached.isEmpty then envSplit (rest.headD "") (rest.drop 1) else envSplit (String.ofList attached) rest)
+      else if attached.isEmpty then envLoop true rest else envLoop false rest
+    | none =>
+    if env_FLAGS_WITH_ARG.contains t then envLoop true rest
     else if sw t "-" then envLoop false rest
     else if Py.hasChar t '=' then envLoop false rest
     else envInner (t :: rest)
@@ -76,7 +91,20 @@ def xargsSkip : Bool → List String → List String
     if t == "--" then rest
     else if !sw t "-" then t :: rest
     else if xargs_FLAGS_WITH_ARG.contains t then xargsSkip true rest
+    else if t.length > 2 && isShort t then
+      -- combined short options (-rn 1, -rn1): the value of the first value-taking one is the rest of the word or the next word
+      match clusterFind xargs_FLAGS_WITH_ARG (t.toList.drop 1) with
+      | some (_, attached) => if attached.isEmpty then xargsSkip true rest else xargsSkip false rest
+      | none => xargsSkip false rest
     else xargsSkip false rest
+
+/-- an interactive flag inside a cluster, before any value-taking option (`-rp`, `-to`) -/
+def clusterUnsafe : List Char → Option Char
+  | [] => none
+  | c :: r =>
+    if xargs_FLAGS_WITH_ARG.contains ("-" ++ String.singleton c) then none
+    else if xargs_UNSAFE_FLAGS.contains ("-" ++ String.singleton c) then some c
+    else clusterUnsafe r
 
 /-- the scan for interactive flags, up to `--` -/
 def xargsUnsafe : List String → Option Classification
@@ -87,6 +115,8 @@ def xargsUnsafe : List String → Option Classification
       match lookup xargs_FLAG_CONTEXT t with
       | some ctx => if ctx.isEmpty then some (ask ("xargs " ++ t)) else some (ask ("xargs " ++ t ++ " (" ++ ctx ++ ")"))
       | none => some (ask ("xargs " ++ t))
+    else if (t.length > 2 && isShort t) && (clusterUnsafe (t.toList.drop 1)).isSome then
+      some (ask ("xargs -" ++ String.singleton ((clusterUnsafe (t.toList.drop 1)).getD ' ')))
     else if sw t "--interactive" then some (ask "xargs --interactive")
     else if sw t "--open-tty" then some (ask "xargs --open-tty")
     else xargsUnsafe rest
